@@ -59,6 +59,8 @@ Definition opt_u16_prop (k : N) (o : option N) : list step :=
   match o with Some v => [SU8 k; SU16 v] | None => [] end.
 Definition opt_u32_prop (k : N) (o : option N) : list step :=
   match o with Some v => [SU8 k; SU32 v] | None => [] end.
+Definition opt_vli_prop (k : N) (o : option N) : list step :=
+  match o with Some v => [SU8 k; SVli v] | None => [] end.
 (* encode_optional_boolean_property! *)
 Definition opt_bool_prop (k : N) (o : option bool) : list step :=
   match o with Some v => [SU8 k; SU8 (bool_n v)] | None => [] end.
@@ -291,10 +293,14 @@ Definition connect_steps311 (c : connect) : outcome (list step) :=
 Fixpoint filters_sum (l : list bytes) : N :=
   match l with [] => 0 | f :: r => len f + filters_sum r end.
 
-(* compute_subscribe_packet_length_properties5 19-32 *)
+(* compute_subscribe_packet_length_properties5 19-34 (after the repair of D3: the subscription identifier is
+   sized as identifier byte + variable byte integer) *)
 Definition subscribe_lengths5 (s : subscribe) : outcome (N * N) :=
   let pl := up_length (s_up s) in
-  let pl := pl + opt_fixed_len 5 (s_subid s) in
+  do pl <- match s_subid s with
+           | Some id => do sz <- vli_size id ; Ok (pl + (1 + sz))
+           | None => Ok pl
+           end ;
   do sz <- vli_size pl ;
   let total := 2 + sz in
   let total := total + pl in
@@ -306,11 +312,12 @@ Definition subscribe_lengths5 (s : subscribe) : outcome (N * N) :=
 Definition subscription_options5 (x : subscription) : N :=
   sub_qos x + (if sub_no_local x then 4 else 0) + (if sub_rap x then 8 else 0) + sub_rh x * 16.
 
-(* write_subscribe_encoding_steps5 69-87: NOTE the subscription identifier is emitted as Uint32 *)
+(* write_subscribe_encoding_steps5 71-89: the subscription identifier is emitted as a Vli step (D3 repaired;
+   it used to be Uint32) *)
 Definition subscribe_steps5 (s : subscribe) : outcome (list step) :=
   do (total, pl) <- subscribe_lengths5 s ;
   Ok ([SU8 SUBSCRIBE_FIRST_BYTE; SVli total; SU16 (s_pid s); SVli pl]
-      ++ opt_u32_prop K_SUBSCRIPTION_ID (s_subid s)
+      ++ opt_vli_prop K_SUBSCRIPTION_ID (s_subid s)
       ++ up_steps (s_up s)
       ++ flat_map (fun x => lp_data (sub_filter x) ++ [SU8 (subscription_options5 x)]) (s_subs s)).
 
